@@ -287,7 +287,7 @@ func genInfl(r *Rng) inflCase {
 // harness in the thorough tier the race detector watches the same runs)
 
 type inflConcCase struct {
-	Tag   string   `json:"tag"`   // makes every key fresh, so the memo cache is cold
+	Tag   string   `json:"tag"` // makes every key fresh, so the memo cache is cold
 	Words []string `json:"words"`
 	G     int      `json:"goroutines"`
 }
@@ -360,7 +360,9 @@ func (c inflConcCase) Shrinks() []Case {
 	}
 	return out
 }
-func (c inflConcCase) Key() string       { return fmt.Sprintf("%d goroutines × %d words", c.G, len(c.Words)) }
+func (c inflConcCase) Key() string {
+	return fmt.Sprintf("%d goroutines × %d words", c.G, len(c.Words))
+}
 func (c inflConcCase) Classes() []string { return []string{fmt.Sprintf("goroutines:%d", c.G)} }
 func (c inflConcCase) Nontrivial() bool  { return c.G > 1 && len(c.Words) > 1 }
 
@@ -397,8 +399,8 @@ func init() {
 		},
 		{
 			Name: "inflect", Quick: 30000, Thorough: 300000,
-			New: func() Case { return &inflCase{} },
-			Gen: func(r *Rng, i int) Case { return genInfl(r) },
+			New:  func() Case { return &inflCase{} },
+			Gen:  func(r *Rng, i int) Case { return genInfl(r) },
 			Rule: "Pluralize/Singularize on prefix+word: every irregular and uninflected word and rule examples in lower/Title/UPPER case, with ſ/K substitutions, truncated or suffixed, behind 36 prefixes (separators, word characters, non-ASCII, newlines, runes whose case mapping changes their UTF-8 length, bytes that are not UTF-8); model = irregular step (Lean) with the rules part re-stated from the source where it finds no irregular match; oracle: no panic, same answer twice, prefix preserved and word inflected as on its own",
 		},
 		{
